@@ -262,16 +262,22 @@ func c09(r *core.Run) {
 			var getter *ssa.Call
 			var getterIn *ssa.Function
 			var via *ssa.Call
-			for _, fn2 := range p.Summary(unit).Funcs {
-				allInstrs(fn2, func(in ssa.Instruction) {
-					if c, ok := in.(*ssa.Call); ok {
-						for _, cal := range p.Callees(c) {
-							if gi := p.StoreGetter(cal); gi != nil && gi.Module+"/"+gi.Prefix == rnsBids && fn2 != cal {
-								getter, getterIn = c, fn2
+			findGetter := func(funcs []*ssa.Function) {
+				for _, fn2 := range funcs {
+					allInstrs(fn2, func(in ssa.Instruction) {
+						if c, ok := in.(*ssa.Call); ok {
+							for _, cal := range p.Callees(c) {
+								if gi := p.StoreGetter(cal); gi != nil && gi.Module+"/"+gi.Prefix == rnsBids && fn2 != cal {
+									getter, getterIn = c, fn2
+								}
 							}
 						}
-					}
-				})
+					})
+				}
+			}
+			findGetter(p.Summary(unit).Funcs)
+			if getter == nil {
+				findGetter(p.Summary(h.Fn).Funcs) // the lookup sits in a sibling helper (validate, then apply)
 			}
 			if getterIn != nil && getterIn != unit {
 				allInstrs(unit, func(in ssa.Instruction) {
@@ -310,6 +316,54 @@ func c09(r *core.Run) {
 				r.Check(okKey, "C09/R3", h.Key()+":lookup-key=written-key", p.InstrPos(getter), "open-bid lookup key and written key are the same term", "the open bid is looked up under a different key than the new bid is written under, so an existing bid can be overwritten without being found and refunded: "+detail)
 			}
 			bad := core.PathExists(unit, removed, setCall, nil)
+			if bad {
+				// validate-then-apply shapes: the lookup and the write sit in sibling helpers and the verdict travels in a
+				// record; judge the executions of the function that calls both, the helpers executed in line
+				tops := []*ssa.Function{unit}
+				for _, f := range p.Summary(h.Fn).Funcs {
+					if f != unit && callsDirectly(p, f, unit) {
+						tops = append(tops, f)
+					}
+				}
+				absent := foundGuard(p, rnsBids, false)
+				for _, top := range tops {
+					execs, complete := p.AbstractExecutions(top)
+					if !complete {
+						continue
+					}
+					n, all := 0, true
+					for i := range execs {
+						e := &execs[i]
+						when, performed := e.Calls[setCall]
+						if !performed || !p.ExecCommits(top, e) {
+							continue
+						}
+						n++
+						ok := p.ExecSatisfies(e, absent, when)
+						for in, at := range e.Calls {
+							if ok || at > when {
+								continue
+							}
+							if c, isCall := in.(ssa.CallInstruction); isCall {
+								for _, bo := range p.BankOps(in.Parent()) {
+									if bo.Instr == c && bo.Method == "SendCoinsFromModuleToAccount" &&
+										onlyStoreField(rnsBids, ".Price")(p.ResolveToEntry(p.ProvAt(bo.Args[2], "", bo.Instr), h.Fn)) &&
+										p.OnlyMsgField(p.ProvAt(bo.Args[1], "", bo.Instr), h, "Creator") {
+										ok = true
+									}
+								}
+							}
+						}
+						if !ok {
+							all = false
+						}
+					}
+					if n > 0 && all {
+						bad = false
+						break
+					}
+				}
+			}
 			r.Check(!bad, "C09/R3", h.Key()+":overwrite-without-refund", p.InstrPos(setCall), "bid written only if none existed or after refunding the old one", "a second bid by the same account on the same name overwrites the first without refunding it: the first escrow is stranded in the module account")
 		}
 	}
